@@ -204,4 +204,5 @@ type Result struct {
 	Error    string     `json:"error,omitempty"` // harness-level trouble
 	Races    int        `json:"races,omitempty"` // stress: number of race reports (real -race worker)
 	WallMs   float64    `json:"wall_ms,omitempty"`
+	Stalled  string     `json:"stalled,omitempty"` // stress: no call completed anywhere for a long time; goroutine dump excerpt
 }
